@@ -2,7 +2,8 @@
    (1) satisfy the property clauses for ANY body inside the translator's grammar that passes two checkable side
        conditions (try_gen_sound / try_gen_none_when_accessible), and
    (2) are, for the source as it is, equal to the hand-written model of Model.v / Pipeline.v (…_src_refines). *)
-From RM Require Import C19.Source.
+From Flocq Require Import IEEE754.Bits.
+From RM Require Import C19.Source C19.Proofs C19.Proofs2.
 From Coq Require Import Lia.
 Open Scope Z_scope.
 
@@ -319,4 +320,31 @@ Theorem try_src_none_when_accessible : forall a reg br ctx rs op mi,
 Proof.
   intros. unfold try_bit_flips_src. apply try_gen_none_when_accessible; [exact (proj2 try_side_conditions)|].
   exists mi. auto.
+Qed.
+
+(* ------------------------------------------------------------ THE PROPERTY on the compiled path *)
+Theorem the_property_src : forall analysis arch platform_id e pc l,
+  u64_recs l ->
+  0 <= er_address e < two64 -> 0 <= er_info1 e < two64 ->
+  (forall x id v, pc = Some x -> get_register x id = Some v -> 0 <= v < two64) ->
+  (forall x oa ai, analysis x = Some oa -> (exists a, oa_addresses oa = Some a /\ In ai a) -> 0 <= ai_addr ai < two64) ->
+  let c := dump_cpu arch in
+  let os := os_class (dump_os platform_id) in
+  let r := dump_reason arch platform_id e in
+  let address := dump_address arch platform_id e in
+  let flips := dump_pipeline_src analysis arch platform_id e pc (regions_of_info l) in
+  (forall f, In f flips ->
+     exists a j, examined_by analysis c os r address pc f a /\
+                 inaccessible (regions_of_info l) (memop_of_reason r) a /\
+                 br_lo (pipeline_br analysis c os r address pc) <= j < br_hi (pipeline_br analysis c os r address pc) /\
+                 f_addr f = Z.lxor a (2 ^ j) /\ 0 <= f_addr f < two64 /\
+                 (f_addr f = 0 \/
+                  exists base size prot, In (base, size, prot) l /\ size <> 0 /\ base + size < two64 /\
+                                         base <= f_addr f < base + size /\ info_allows (memop_of_reason r) prot = true) /\
+                 le_b32 (f32 0) (confidence (f_det f)) = true /\ le_b32 (confidence (f_det f)) (f32 F32_ONE_bits) = true) /\
+  (forall x oa, pc = Some x -> analysis x = Some oa -> has_null_flag oa -> flips = []) /\
+  (~ (arch = 9 \/ arch = 32770 \/ arch = 32772) -> flips = []).
+Proof.
+  intros analysis arch platform_id e pc l H1 H2 H3 H4 H5. cbv zeta.
+  rewrite dump_pipeline_src_refines. exact (the_property analysis arch platform_id e pc l H1 H2 H3 H4 H5).
 Qed.
